@@ -484,6 +484,8 @@ def step_(ctx, g, name, obj, ids, regime, nxt, hist, coords, sibs):
                     return obj, ids, "skipped"
             except Exception:
                 pass
+        if g.random() < 0.12:      # a one-element sequence: still a NEW object with the receiver's entities
+            operands = []; new = list(cur)
         form = "%d operands" % (1 + len(operands))
         variants = [("concat" + S, "concat" + S, False, lambda o, q: getattr(cls, "concat" + S)([o] + list(q))),
                     ("concat(axis)", "concat", False, lambda o, q: cls.concat([o] + list(q), axis=ax))]
